@@ -103,6 +103,14 @@ CHECKS = {
    design_ref='5 (C13)',
    note=TB + ' One-level abstract game; nested calls by contract-or-abort; nodes with <= 2 (quick) / 3 (thorough) moves; quiescence has no insert site.',
    technique='symbolic execution of rustc MIR into z3; inductive step with symbolic cut points; observed cache writes as obligations'),
+ 'C07': dict(
+   category='proof',
+   text=('Lemma chain over the real MIR, composed by substitution: piece_placement by ONE trip round its character loop from an arbitrary loop state related to an independent rank/file reader (induction over the string: unbounded length), plus its entry and exit wiring; '
+         'the turn / castling / en-passant / counter readers on symbolic characters; the fabricated history record; from_fen field wiring for 4/5/6 fields; BoardBuilder::build field by field with the key as ZKey::from(board); '
+         'and: valid FEN content => the loaded Board satisfies the representation invariant Inv from which C01-C05 are proved, so behaviour after loading is that of the position however reached.'),
+   design_ref='5 (C07)',
+   note=TB + ' Castling field <= 4 characters, counters <= 6000; decimal parsing and whitespace splitting are std (outside); the position log is empty after loading (repetition history is not part of a FEN).',
+   technique='symbolic execution of rustc MIR into z3; loop cut-point induction (simulation of a reference reader); lemma composition'),
  'C08': dict(
    category='other',
    text=('Compositional: (PARSE) UCICommand::new executed from MIR on abstract token lists `position ...` of <= 12 tokens: kind, the six FEN tokens and the move tokens are exactly the grammar slices, anything else is Err, no panic; '
